@@ -2,6 +2,8 @@
 (***************************************************************************)
 (* code -> spec validation for property C24.  Records (see FTrace):        *)
 (*   tojson       inp = JSON value, out = result, x.back = json.loads(out) *)
+(*                x.src = how the value reaches the filter (HtmlScan       *)
+(*                Sources), x.pre / x.post = template data around it       *)
 (*   xmlattr      inp = dict, args.autospace                               *)
 (*   urlize       inp = text, args = trim / nofollow / target / rel /      *)
 (*                schemes; out = result text                               *)
@@ -19,11 +21,16 @@ VARIABLES tid, rej
 
 SafeIfCalled(r) == r.name = "call" => r.out.t = "m"
 
+\* the value the filter receives: r.inp through the template form x.src (a class label) with the
+\* literal template data x.pre / x.post around it (only strings travel through the non-"data" forms)
+ToJsonArg(r) == IF r.x.src.v = "data" THEN r.inp ELSE Reaches(r.x.src.v, r.inp, r.x.pre.v, r.x.post.v)
+
 C24_ToJson(r) ==
+    /\ r.x.src.v \in Sources
     /\ r.out.t \in {"s", "m"}
-    /\ r.out.v = JsonOf(r.inp)
+    /\ r.out.v = JsonOf(ToJsonArg(r))
     /\ HtmlSafeJson(r.out.v)
-    /\ JsonOf(r.x.back) = JsonOf(r.inp)           \* parses back to the input value
+    /\ JsonOf(r.x.back) = JsonOf(ToJsonArg(r))    \* parses back to the value it was given
     /\ SafeIfCalled(r)
 
 C24_XmlAttr(r) ==
@@ -70,7 +77,7 @@ Why(r) ==
 
 \* what the specification expects, for the report (where it is a single value)
 Expected(r) ==
-    CASE r.f = "tojson" -> S(JsonOf(r.inp))
+    CASE r.f = "tojson" -> S(JsonOf(ToJsonArg(r)))
       [] r.f = "xmlattr" -> XmlAttr(r.inp.v, r.args.autospace.v)
       [] r.f \in {"escape", "e"} -> EscapeV(r.inp)
       [] r.f = "forceescape" -> ForceEscapeV(r.inp)
